@@ -24,13 +24,13 @@ TIERS = {
     "thorough": {"shards": 16, "cases": 60000, "timeout": 1200},
 }
 FLOORS = {"quick": {"cases_with_debug_logging": 750,
-                    "distinct_nontrivial": 500, "foreign_char_rejections": 300, "look_alike_char_rejections": 300,
+                    "distinct_nontrivial": 500, "foreign_char_rejections": 200, "look_alike_char_rejections": 300, "braces_rejections": 300,
                     "overflow_rejections": 100, "roundtrips": 5000, "wrong_length_rejections": 300,
                     "yields_injected_inside_conversions": 20000,
                     "decorated_short_rejections": 300, "junk_around_valid_rejections": 600,
                     "case_variant_rejections": 300, "damaged_canonical_rejections": 500},
           "thorough": {"cases_with_debug_logging": 3000,
-                       "distinct_nontrivial": 5000, "foreign_char_rejections": 3000, "look_alike_char_rejections": 3000,
+                       "distinct_nontrivial": 5000, "foreign_char_rejections": 2000, "look_alike_char_rejections": 3000, "braces_rejections": 3000,
                        "overflow_rejections": 1000, "roundtrips": 100000, "wrong_length_rejections": 10000,
                        "yields_injected_inside_conversions": 200000,
                        "decorated_short_rejections": 10000, "junk_around_valid_rejections": 20000,
@@ -178,7 +178,7 @@ def one_case(ctx, rng, alpha, seen, i):
         check_int(ctx, n, alpha, seen, "padded")
     elif r in (2, 3):
         check_int(ctx, rng.getrandbits(128), alpha, seen, "random")
-    elif r == 4 and i % 16 == 4:  # characters that only LOOK like alphabet characters (compatibility forms)
+    elif r == 4 and i % 32 == 4:  # characters that only LOOK like alphabet characters (compatibility forms)
         s = list(model_encode(rng.getrandbits(128), alpha))
         k = rng.randrange(3)
         if k == 0:
@@ -189,6 +189,14 @@ def one_case(ctx, rng, alpha, seen, i):
         else:
             s = ["\ufb01"] + s[2:] if rng.random() < 0.5 else s[:20] + ["\u01c6"]    # a ligature standing for two letters
         check_string(ctx, "".join(s), alpha, "look_alike_char")
+    elif r == 4 and i % 32 == 12:  # 22 characters with a pair of braces (a replacement field of str.format)
+        s = list(model_encode(rng.getrandbits(128), alpha))
+        a = rng.randrange(0, 21)
+        b = rng.randrange(a + 1, 22)
+        s[a], s[b] = "{", "}"
+        if rng.random() < 0.3:
+            s[a + 1:b] = list(rng.choice(["0", "", "x.y", "a[0]", "!r"]).ljust(b - a - 1, rng.choice(alpha)))[:b - a - 1]
+        check_string(ctx, "".join(s), alpha, "braces")
     elif r == 4:  # foreign character
         s = list(model_encode(rng.getrandbits(128), alpha))
         pos = rng.randrange(22)
@@ -336,6 +344,17 @@ class Masked(str):
         return self.shown
 
 
+class CaseBlind(str):
+    """a str subclass with an equality of its own - and therefore, as python has it, no hash"""
+
+    def __eq__(self, other):
+        return isinstance(other, str) and str.lower(self) == str.lower(other)
+
+    def __ne__(self, other):
+        return not self.__eq__(other)
+    __hash__ = None
+
+
 def str_subclass_cases(ctx, alpha, rng):
     u = uuid.UUID(int=rng.getrandbits(128))
     short, canon = model_encode(u.int, alpha), str(u)
@@ -354,6 +373,21 @@ def str_subclass_cases(ctx, alpha, rng):
         if got != want:
             ctx.violation("valid-string-rejected" if want is not None else "invalid-string-accepted",
                           ["uuid_from_str", "str subclass with value %r shown as %r" % (value, shown), str(got)], case)
+    for value, want in ((short, u), (canon, u), ("garbage", None), (short[:-1], None)):
+        for fname in ("uuid_from_str", "uuid_from_short_str"):
+            exp = want if fname == "uuid_from_str" or value == short else None
+            ctx.evaluated()
+            ctx.count("str_subclass_arguments")
+            try:
+                got = getattr(short_uuid, fname)(CaseBlind(value))
+            except ValueError:
+                got = None
+            except Exception as err:
+                ctx.violation("wrong-exception-type", [fname, type(err).__name__, str(err)[:80]], case)
+                continue
+            if got != exp:
+                ctx.violation("valid-string-rejected" if exp is not None else "invalid-string-accepted",
+                              [fname, "unhashable str subclass with value %r" % value, str(got)], case)
 
 
 CHILD = r"""
